@@ -30,6 +30,8 @@ func main() {
 		famC14(g, o, *n, *thorough)
 	case "c12":
 		famC12(g, o, *n, *thorough)
+	case "c06":
+		famC06(g, o, *n, *thorough)
 	case "c04":
 		famC04(g, o, *n, *thorough)
 	case "c03":
